@@ -13,5 +13,9 @@ def check(ctx: Ctx) -> None:
     S.r_lifecycle_callers(ctx, "R03.4")
     S.r_wiring(ctx, "R03.5", {"END", "CANCEL"}, 12, "end/cancel callback roles")
     S.r_execute_optional(ctx, "R03.6")
+    # the registries and callbacks are keyed by the task id: one id for two live tasks breaks "exactly one registry" and
+    # "end callback exactly once with its id" (shared with C11)
+    from . import naming as N
+    N.r_id_discipline(ctx, "R03.7")
     S.r_handoff(ctx, "R02.1")
     S.r_snapshot_forget(ctx, "R13.1")
